@@ -115,8 +115,14 @@ def gen(rng, tier):
            'shape': rng.choice(['flat', 'list', 'dict']),
            'method': rng.choice(['none', 'before', 'after', 'after']),
            'ambient': rng.choice([[], ['amb'], ['left']])}
+  rereg = None
+  if rng.random() < 0.12:
+    rereg = {'scope': rng.choice(['rs', 'rs/rt']),
+             'evaluate': rng.random() < 0.6, 'nested': rng.random() < 0.4,
+             'clear': rng.random() < 0.5,
+             'also_get_configurable': rng.random() < 0.5}
   return {'nprod': nprod, 'ncons': ncons, 'binds': binds, 'ops': ops,
-          'dyn': dyn,
+          'dyn': dyn, 'rereg': rereg,
           'skip_unknown': rng.choice([None, None, 'true', 'list', 'set'])}
 
 
@@ -517,6 +523,8 @@ def run(case):
       pristine = after
   if case.get('dyn') and not viol:
     _dynamic_scoped_refs(case['dyn'], v, log)
+  if case.get('rereg') and not viol:
+    _reregistered_scoped_ref(case['rereg'], v, log)
   seen = set()
   uniq = []
   for x in viol:
@@ -540,6 +548,67 @@ def run(case):
                  'evaluated_under_nonroot_ambient': stats['eval_nonroot']},
       'sample_obs': {'config': lines[:6]},
   }
+
+
+def _reregistered_scoped_ref(rr, v, log):
+  """A scoped reference written after its target was registered anew (as when
+  a notebook cell is run again) delivers the new registration."""
+  gin = world.gin
+  world.reset()
+  got = []
+
+  def make(tag):
+    def rrprod(z='dz'):
+      return (tag, z, tuple(gin.current_scope()))
+    return rrprod
+
+  def rruse(val=None):
+    got.append(val)
+  use = gin.configurable('rruse', module='cm')(rruse)
+  gin.configurable('rrprod', module='pm')(make('first'))
+  ref = '@%s/pm.rrprod%s' % (rr['scope'], '()' if rr['evaluate'] else '')
+  text = 'cm.rruse.val = %s\n%s/pm.rrprod.z = 7\n' % (
+      ref if not rr['nested'] else '[1, {"k": %s}]' % ref, rr['scope'])
+
+  def delivered():
+    del got[:]
+    use()
+    x = got[0]
+    if rr['nested']:
+      x = x[1]['k']
+    return x if rr['evaluate'] else x()
+  try:
+    gin.parse_config(text)
+    first = delivered()
+    if rr['also_get_configurable']:
+      gin.get_configurable('%s/pm.rrprod' % rr['scope'])()
+    with gin.config.interactive_mode():
+      gin.configurable('rrprod', module='pm')(make('second'))
+    if rr['clear']:
+      gin.clear_config()
+    gin.parse_config(text)
+    second = delivered()
+    via_name = gin.get_configurable('%s/pm.rrprod' % rr['scope'])()
+  except Exception as e:  # pylint: disable=broad-except
+    v('C04.call_succeeds', ['reregistered-target', type(e).__name__],
+      'scoped reference to a re-registered configurable (%r) raised %s: %s' %
+      (rr, type(e).__name__, probes.scrub(str(e))[:300]))
+    return
+  log.add('rereg', rr, first, second, via_name)
+  scope_t = tuple(rr['scope'].split('/'))
+  if first != ('first', 7, scope_t):
+    v('C04.delivered_value', ['reregistered-target', 'first'],
+      '%s delivered %r, expected the result of the registered function under '
+      'scope %s with z=7' % (ref, first, rr['scope']))
+  for what, x in (('the reference written afterwards', second),
+                  ('get_configurable by scoped name', via_name)):
+    if x != ('second', 7, scope_t):
+      v('C04.delivered_value', ['reregistered-target', 'stale'],
+        'pm.rrprod was registered again (interactive mode)%s and %s parsed '
+        'again: %s delivers %r, expected the new function under scope %s' %
+        (', clear_config() called' if rr['clear'] else '', ref, what, x,
+         rr['scope']))
+      break
 
 
 def _dynamic_scoped_refs(d, v, log):
@@ -617,6 +686,10 @@ def _has_eval(v):
 
 
 def shrinks(case):
+  if case.get('rereg'):
+    c = copy.deepcopy(case)
+    c['rereg'] = None
+    yield c
   if case.get('dyn'):
     c = copy.deepcopy(case)
     c['dyn'] = None
